@@ -262,6 +262,10 @@ class Session:
             # two capabilities requests back to back (different identifiers) in one read
             "cer+cer": lambda: node.cer(hbh, e2e, apps=apps) + node.cer(e2e ^ 0x55, hbh ^ 0xaa, apps=apps),
             "cer+app": lambda: node.cer(hbh, e2e, apps=apps) + node.app_request(self.idseq, hbh=hbh ^ 1),
+            # requests marked as potentially retransmitted (T flag, RFC 6733 section 3): requests all the same
+            "dwr-tflag": lambda: node.dwr(hbh, e2e, flags=0x90),
+            "dpr-tflag": lambda: node.dpr(hbh, e2e, flags=0x90),
+            "cer-tflag": lambda: node.cer(hbh, e2e, apps=apps, flags=0x90),
             "dpr-busy": lambda: node.dpr(hbh, e2e, cause=1),
             "dpr-dontwant": lambda: node.dpr(hbh, e2e, cause=2),
             "cea": lambda: node.cea(hbh, e2e, apps=apps),
@@ -303,9 +307,9 @@ class Session:
             meta["requests"] = [(257, hbh, e2e), (257, e2e ^ 0x55, hbh ^ 0xaa)]
         elif what == "cer+app":
             meta["requests"] = [(257, hbh, e2e)]
-        elif what in ("cer", "dwr", "dpr", "dwr+app", "cer-2ip", "dpr-busy", "dpr-dontwant", "cer-vendor257"):  # noqa
+        elif what in ("cer", "dwr", "dpr", "dwr+app", "cer-2ip", "dpr-busy", "dpr-dontwant", "cer-vendor257", "dwr-tflag", "dpr-tflag", "cer-tflag"):
             meta["requests"] = [({"cer": 257, "dwr": 280, "dpr": 282, "dwr+app": 280, "cer-2ip": 257, "dpr-busy": 282,
-                                  "dpr-dontwant": 282, "cer-vendor257": 257}[what], hbh, e2e)]
+                                  "dpr-dontwant": 282, "cer-vendor257": 257, "dwr-tflag": 280, "dpr-tflag": 282, "cer-tflag": 257}[what], hbh, e2e)]
         return data, meta
 
     def last_request_ids(self, code):
@@ -376,7 +380,7 @@ def judge(role, prev, o, history_ctx):
     # G4: Open only through R4 / R8
     if ns in OPENS and ps not in OPENS:
         ok = (role == "client" and ps == "Wait-I-CEA" and what in ("cea-echo", "cea-echo-2ip")) or \
-             (role == "server" and ps == "Closed" and what in ("cer", "cer+dwr", "cer+cer", "cer+app", "cer-2ip", "cer-vendor257"))
+             (role == "server" and ps == "Closed" and what in ("cer", "cer-tflag", "cer+dwr", "cer+cer", "cer+app", "cer-2ip", "cer-vendor257"))
         if not ok:
             errs.append((sig(f"G4:opened-without-capabilities-exchange:{ps}:{kind if what is None else what}"),
                          f"G4: state became {ns} from {ps} on {ev}"))
@@ -418,7 +422,7 @@ def judge(role, prev, o, history_ctx):
             allow({"Closed"}, "R7")
     else:
         if ps == "Closed" and kind == "msg" and o["conn"] != "none":
-            if what in ("cer", "cer+dwr", "cer+cer", "cer+app"):
+            if what in ("cer", "cer+dwr", "cer+cer", "cer+app", "cer-tflag"):
                 allow({"R-Open"}, "R8")
                 # what the peer pipelined behind its CER is handled once Open, after the CEA is out
                 if len(emitted(257, False)) < 1:
@@ -446,7 +450,7 @@ def judge(role, prev, o, history_ctx):
         allow({"Closed"}, "R19")
     elif ps in OPENS:
         if kind == "msg":
-            if what == "dwr":
+            if what in ("dwr", "dwr-tflag"):
                 allow({ps}, "R10")
                 if len(emitted(280, False)) != 1:
                     errs.append((sig("R10:dwa-count"), f"R10: valid DWR answered by {len(emitted(280, False))} DWA(s)"))
@@ -472,10 +476,10 @@ def judge(role, prev, o, history_ctx):
                     errs.append((sig(f"R13:dpa-count:{what}"), f"R13: {what} in one read answered by {len(emitted(282, False))} DPA(s)"))
                 if what == "app+dpr" and len(o["delivered"]) != 1:
                     errs.append((sig("R14:delivery:app+dpr"), f"R14: request before the DPR handed over {len(o['delivered'])} times"))
-            elif what in ("dpr", "dpr-otherhost", "dpr-busy", "dpr-dontwant"):
+            elif what in ("dpr", "dpr-otherhost", "dpr-busy", "dpr-dontwant", "dpr-tflag"):
                 allow({"Closed"}, "R13")
                 if what != "dpr-otherhost" and len(emitted(282, False)) != 1:
-                    errs.append((sig("R13:dpa-count"), f"R13: valid DPR answered by {len(emitted(282, False))} DPA(s)"))
+                    errs.append((sig("R13:dpa-count" + (":tflag" if what == "dpr-tflag" else "")), f"R13: valid DPR answered by {len(emitted(282, False))} DPA(s)"))
             elif what in ("app-req", "app-ans"):
                 allow({ps}, "R14")
                 if len(o["delivered"]) != 1:
@@ -576,10 +580,10 @@ def run_history(role, apps, history, watchdog=30):
     return rt, (s.obs if s else [])
 
 
-MSGS_OPEN = ["dwr", "dwr-badutf8", "dwr-badutf8-realm", "cer-badutf8", "dpr-busy", "dpr-dontwant", "dwr-otherhost", "dwr-otherhost-2realm", "dwa", "dwa-otherhost", "dpr", "dpr-otherhost", "dpa", "cer", "cer-otherhost",
+MSGS_OPEN = ["dwr", "dwr-tflag", "dpr-tflag", "dwr-badutf8", "dwr-badutf8-realm", "cer-badutf8", "dpr-busy", "dpr-dontwant", "dwr-otherhost", "dwr-otherhost-2realm", "dwa", "dwa-otherhost", "dpr", "dpr-otherhost", "dpa", "cer", "cer-otherhost",
              "cea", "cea-echo", "dwa-echo", "app-req", "app-ans", "req-otherhost", "req-otherrealm", "dwr+dwr", "dwr+app"]
 MSGS_WAIT_CEA = ["cea-echo", "cea-echo-2ip", "cea-badutf8", "cea-otherhost", "cea-otherhost-2ip", "cea-otherhost-vendorpad", "cea-otherrealm-vendorpad", "cea-incomplete", "cer", "dwr", "dwa", "dpr", "dpa", "app-req", "app-ans"]
-MSGS_SERVER_CLOSED = ["cer", "cer+cer", "cer+app", "cer-2ip", "cer-badutf8", "cer-vendor257", "cer-otherhost", "cer-otherhost-2ip", "cer-otherhost-vendorpad", "cer-otherrealm-vendorpad", "cer-otherrealm", "cer-incomplete", "dwr", "app-req", "cea", "dpr"]
+MSGS_SERVER_CLOSED = ["cer", "cer-tflag", "cer+cer", "cer+app", "cer-2ip", "cer-badutf8", "cer-vendor257", "cer-otherhost", "cer-otherhost-2ip", "cer-otherhost-vendorpad", "cer-otherrealm-vendorpad", "cer-otherrealm", "cer-incomplete", "dwr", "app-req", "cea", "dpr"]
 
 
 class FsmModel:
